@@ -84,9 +84,10 @@ def _surf_specs(tier):
     else:
         for i, fl in enumerate(F.surf_enum(6)):
             for al in ("gen", "lat"):
-                add(f"tri6#{i}:{al}", SURF_ALPHA[al][:6], fl)
+                add(f"tri6#{i}:{al}", SURF_ALPHA[al][:6], fl, lite=1)
         for i, fl in enumerate(F.surf6_classes()):
-            add(f"tri6c#{i}:momc", MOMC[:6], fl)
+            for al in ("gen", "lat", "momc"):
+                add(f"tri6c#{i}:{al}", SURF_ALPHA[al][:6], fl)
     # an isolated LAST vertex (index n, used by no face)
     for n in (3, 4):
         for i, fl in enumerate(F.surf_enum(n)):
@@ -151,7 +152,14 @@ def _vol_specs(tier):
                     variants.append(("positive", F.orient_cells_positive(cells, pts)))
                     variants.append(("rotated", [tuple(c[(k + 1 + j) % 4] for k in range(4)) for j, c in enumerate(cells)]))
                 for vt, cl in variants:
-                    S.append({"name": f"{tag}#{i}:{al}:{vt}", "pts": [list(p) for p in pts], "cells": [list(c) for c in cl]})
+                    S.append({"name": f"{tag}#{i}:{al}:{vt}", "pts": [list(p) for p in pts], "cells": [list(c) for c in cl],
+                              "lite": int(tag == "tet6")})
+    if tier == "thorough":
+        for i, cells in enumerate(F.tet6_classes()):
+            for al, P in TET_ALPHA.items():
+                for vt, cl in (("positive", F.orient_cells_positive(cells, P[:6])),
+                               ("rotated", [tuple(c[(k + 1 + j) % 4] for k in range(4)) for j, c in enumerate(cells)])):
+                    S.append({"name": f"tet6c#{i}:{al}:{vt}", "pts": [list(p) for p in P[:6]], "cells": [list(c) for c in cl]})
     return S
 
 
@@ -215,8 +223,21 @@ def _cmp(got, want):
 class Ctx:
     """Per-mesh context: runs an option sweep and reports failures with a coarse, computed option class."""
 
-    def __init__(self, rep: Report, mclass, spec, key):
+    def __init__(self, rep: Report, mclass, spec, key, fine=None, planar=False):
         self.rep, self.mclass, self.spec, self.key = rep, mclass, spec, key
+        self.fine = fine or mclass          # + size bucket (single element, no edge, ...): used for raises / shape
+        self.planar = planar
+
+    def cls(self, sub, override=None):
+        """Coarse computed mesh class of a failure: the size bucket only where a call raises or returns the
+        wrong shape, the planarity only for the clauses that exist on planar meshes only."""
+        if override:
+            return override
+        if sub.endswith(".answers") or sub.endswith(".shape"):
+            return self.fine
+        if "flat_connection" in sub or "parallel_field" in sub:
+            return self.mclass + ":planar"
+        return self.mclass
 
     def sweep(self, callee, space, fn, mclass=None):
         keys = list(space)
@@ -236,12 +257,12 @@ class Ctx:
                 tried = set(repr(v) for v in space[k]); badv = set(repr(o[k]) for o, _ in lst)
                 if len(tried) > 1 and badv != tried:
                     cls.append(f"{k}={'/'.join(sorted(badv))}")
-            icls = (mclass or self.mclass) + "|" + (",".join(cls) or "any-option")
+            icls = self.cls(sub, mclass) + "|" + (",".join(cls) or "any-option")
             o, d = lst[0]
             self.rep.violation("C08." + sub, callee, kind, icls, {"mesh": self.spec, "options": o, **(d or {})})
 
     def single(self, callee, sub, kind, detail, mclass=None):
-        self.rep.violation("C08." + sub, callee, kind, (mclass or self.mclass) + "|-", {"mesh": self.spec, **(detail or {})})
+        self.rep.violation("C08." + sub, callee, kind, self.cls(sub, mclass) + "|-", {"mesh": self.spec, **(detail or {})})
 
 
 def _lib_call(rep, callee, fn, *a, **k):
@@ -287,6 +308,10 @@ def _graph_ops(cx: Ctx, M, m, n, P, poly_faces=None):
     (ids, stored orientation) is mesh.edges."""
     np = _np()
     rep = cx.rep
+    # closed / bordered is irrelevant for the graph-type operators: their mesh class is the mesh kind only
+    kind = cx.mclass.split(":")[0]
+    cx = Ctx(rep, kind + (":polygonal" if ":polygonal" in cx.mclass else ""), cx.spec, cx.key,
+             fine=kind + "".join(":" + t for t in cx.fine.split(":")[1:] if t in ("F=1", "C=1", "E=0", "last_vertex_isolated", "isolated_last_vertex")))
     edges = [tuple(int(x) for x in e) for e in m.edges]
     me = len(edges)
     und = sorted((min(a, b), max(a, b)) for a, b in edges)
@@ -378,18 +403,24 @@ def _graph_ops(cx: Ctx, M, m, n, P, poly_faces=None):
                     want[v, j] = 1.0 / len(f)
             A = _dense(mat)
             rep.evaluations += 2
+            # the documented layout is read from the docstring ("size |V| x |F|" / "M[v,f]"), so that either way of
+            # reconciling code and documentation silences the report
+            import re
+            doc = M.operators.vertex_to_face_operator.__doc__ or ""
+            doc_vf = bool(re.search(r"\|V\|\s*x\s*\|F\|", doc)); doc_fv = bool(re.search(r"\|F\|\s*x\s*\|V\|", doc))
             rep.outcome("vertex_to_face", (getattr(mat, "format", "?"), list(A.shape) == [n, nf], list(A.shape) == [nf, n]))
-            if A.shape == (n, nf) and _cmp(A, want) is None:
-                pass
-            elif A.shape == (nf, n) and _cmp(A, want.T) is None:
-                # right entries, but indexed [f, v]: contradicts the documented size |V| x |F| and M[v,f]
-                cx.single("vertex_to_face_operator", "vertex_to_face.documented_shape", "mismatch:transposed",
-                          {"got_shape": list(A.shape), "documented_shape": [n, nf]}, mclass="surf")
-            elif A.shape not in ((n, nf), (nf, n)):
+            ok_vf = A.shape == (n, nf) and _cmp(A, want) is None
+            ok_fv = A.shape == (nf, n) and _cmp(A, want.T) is None
+            if A.shape not in ((n, nf), (nf, n)):
                 cx.single("vertex_to_face_operator", "vertex_to_face.shape", "mismatch:shape", {"got": list(A.shape), "want": [n, nf]})
-            else:
-                ref = want if A.shape == (n, nf) and (n != nf or _cmp(A, want) is None) else want.T
+            elif not (ok_vf or ok_fv):
+                ref = want if A.shape == (n, nf) and (n != nf or doc_vf) else want.T
                 cx.single("vertex_to_face_operator", "vertex_to_face.weight", "mismatch:entry", _cmp(A, ref) or _cmp(A, want))
+            elif doc_vf != doc_fv and ((doc_vf and not ok_vf) or (doc_fv and not ok_fv)):
+                # right entries, but indexed the other way round than the documented size and M[v,f]
+                cx.single("vertex_to_face_operator", "vertex_to_face.documented_shape", "mismatch:transposed",
+                          {"got_shape": list(A.shape), "documented": "|V| x |F|" if doc_vf else "|F| x |V|",
+                           "documented_shape": [n, nf] if doc_vf else [nf, n]}, mclass="surf")
             c = mat.tocoo()
             if mat.nnz != sum(len(f) for f in faces) or len(set(zip(c.row.tolist(), c.col.tolist()))) != mat.nnz:
                 cx.single("vertex_to_face_operator", "vertex_to_face.one_entry_per_incidence", "mismatch:stored_entries",
@@ -415,8 +446,10 @@ def _surface(M, spec, rep: Report):
     rep.states += 1
     rep.traces += 1
     closed = not F.border_half_edges(faces)
-    mclass = "surf:" + ("closed" if closed else "bordered") + (":planar" if planar else "") + (":F=1" if len(faces) == 1 else "") \
-        + (":isolated_last_vertex" if iso else "") + (":polygonal" if poly else "")
+    mclass = "surf:isolated_last_vertex" if iso else ("surf:" + ("closed" if closed else "bordered") + (":polygonal" if poly else ""))
+    fine = mclass + (":F=1" if len(faces) == 1 and not iso else "")
+    orders = [4] if spec.get("lite") else ORDERS
+    formats = ["csc"] if spec.get("lite") else FORMATS
     rep.flag("surf:closed" if closed else "surf:bordered")
     for k in ("planar", "iso", "poly", "cw"):
         if spec.get(k):
@@ -424,7 +457,7 @@ def _surface(M, spec, rep: Report):
     if len(faces) == 1:
         rep.flag("surf:F=1")
     key = (tuple(pts), tuple(faces))
-    cx = Ctx(rep, mclass, {"pts": spec["pts"], "faces": spec["faces"], "name": spec["name"]}, key)
+    cx = Ctx(rep, mclass, {"pts": spec["pts"], "faces": spec["faces"], "name": spec["name"]}, key, fine=fine, planar=planar)
     if len(rep.samples) < 2:
         rep.sample({"name": spec["name"], "pts": spec["pts"], "faces": spec["faces"]})
 
@@ -522,7 +555,7 @@ def _surface(M, spec, rep: Report):
                     if bad:
                         out.append(("laplacian.flat_connection_is_scalar", "mismatch:entry", bad))
     cx.sweep("laplacian", {"connection": ["none", "SurfaceConnectionVertices"] + (["FlatConnectionVertices"] if planar else []),
-                           "cotan": [True, False], "order": ORDERS}, f_lap)
+                           "cotan": [True, False], "order": orders}, f_lap)
 
     # ---------------------------------------------------------------- gradient
     fvals = []
@@ -601,7 +634,7 @@ def _surface(M, spec, rep: Report):
             s = float(_dense(o.value).sum())
             if abs(s - 3 * so.total_area) > TOL * 3 * so.total_area:
                 out.append(("mass.vertices.sum", "mismatch:sum_not_3_area", {"got": s, "want": 3 * so.total_area}))
-    cx.sweep("area_weight_matrix", {"inverse": [False, True], "sqrt": [False, True], "format": FORMATS}, f_mv)
+    cx.sweep("area_weight_matrix", {"inverse": [False, True], "sqrt": [False, True], "format": formats}, f_mv)
 
     def f_mf(opts, out):
         o = _lib_call(rep, "area_weight_matrix_faces", M.operators.area_weight_matrix_faces, m, **opts)
@@ -610,7 +643,7 @@ def _surface(M, spec, rep: Report):
             s = float(_dense(o.value).sum())
             if abs(s - so.total_area) > TOL * so.total_area:
                 out.append(("mass.faces.sum", "mismatch:sum_not_area", {"got": s, "want": so.total_area}))
-    cx.sweep("area_weight_matrix_faces", {"inverse": [False, True], "format": FORMATS}, f_mf)
+    cx.sweep("area_weight_matrix_faces", {"inverse": [False, True], "format": formats}, f_mf)
 
     def f_me(opts, out):
         o = _lib_call(rep, "area_weight_matrix_edges", M.operators.area_weight_matrix_edges, m, **opts)
@@ -721,7 +754,7 @@ def _surface(M, spec, rep: Report):
                     out.append(("laplacian_triangles.parallel_field_in_kernel", "mismatch:residual",
                                 {"max_residual": float(np.abs(r).max()), "scale": mx}))
     cx.sweep("laplacian_triangles", {"connection": ["none", "SurfaceConnectionFaces"] + (["FlatConnectionFaces"] if planar else []),
-                                     "cotan": [True, False], "order": ORDERS}, f_lt)
+                                     "cotan": [True, False], "order": orders}, f_lt)
 
     # ---------------------------------------------------------------- edge (Crouzeix-Raviart) Laplacian
     CR = {True: np.array(so.cr_stiffness(edges)).reshape(me, me), False: np.array(so.cr_stiffness(edges, uniform=True)).reshape(me, me)}
@@ -758,7 +791,7 @@ def _surface(M, spec, rep: Report):
             bad = _cmp(np.abs(A), np.abs(CR[opts["cotan"]]))
             if bad:
                 out.append(("laplacian_edges.connection_modulus", "mismatch:entry_modulus", bad))
-    cx.sweep("laplacian_edges", {"connection": ["none", "SurfaceConnectionEdges"], "cotan": [True, False], "order": ORDERS}, f_le)
+    cx.sweep("laplacian_edges", {"connection": ["none", "SurfaceConnectionEdges"], "cotan": [True, False], "order": orders}, f_le)
 
 
 # ================================================================================================ volumes
@@ -780,11 +813,13 @@ def _volume(M, spec, rep: Report):
     rep.traces += 1
     obtuse = any(O.tet_has_obtuse(P, c) for c in cells)
     nc = len(cells)
-    mclass = "vol" + (":C=1" if nc == 1 else "")
+    mclass = "vol"
+    formats = ["csc"] if spec.get("lite") else FORMATS
     rep.flag("vol:obtuse" if obtuse else "vol:acute")
     rep.flag("vol:C=1" if nc == 1 else "vol:C>1")
     key = (tuple(pts), tuple(cells))
-    cx = Ctx(rep, mclass, {"pts": spec["pts"], "cells": spec["cells"], "name": spec["name"]}, key)
+    cx = Ctx(rep, mclass, {"pts": spec["pts"], "cells": spec["cells"], "name": spec["name"]}, key,
+             fine=mclass + (":C=1" if nc == 1 else ""))
     if len(rep.samples) < 4 and nc > 2:
         rep.sample({"name": spec["name"], "pts": spec["pts"], "cells": spec["cells"]})
     vo = O.VolOracle(pts, cells)
@@ -850,7 +885,7 @@ def _volume(M, spec, rep: Report):
             s = float(_dense(o.value).sum())
             if abs(s - 4 * tot) > TOL * 4 * tot:
                 out.append(("mass.tet_vertices.sum", "mismatch:sum_not_4_volume", {"got": s, "want": 4 * tot}))
-    cx.sweep("volume_weight_matrix", {"inverse": [False, True], "sqrt": [False, True], "format": FORMATS}, f_wv)
+    cx.sweep("volume_weight_matrix", {"inverse": [False, True], "sqrt": [False, True], "format": formats}, f_wv)
 
     def f_wc(opts, out):
         o = _lib_call(rep, "volume_weight_matrix_cells", M.operators.volume_weight_matrix_cells, m, **opts)
@@ -859,7 +894,7 @@ def _volume(M, spec, rep: Report):
             s = float(_dense(o.value).sum())
             if abs(s - tot) > TOL * tot:
                 out.append(("mass.cells.sum", "mismatch:sum_not_volume", {"got": s, "want": tot}))
-    cx.sweep("volume_weight_matrix_cells", {"inverse": [False, True], "sqrt": [False, True], "format": FORMATS}, f_wc)
+    cx.sweep("volume_weight_matrix_cells", {"inverse": [False, True], "sqrt": [False, True], "format": formats}, f_wc)
 
 
 # ================================================================================================ polylines
@@ -878,7 +913,8 @@ def _polyline(M, spec, rep: Report):
     for a, b in edges:
         deg[a] += 1; deg[b] += 1
     last_iso = deg[n - 1] == 0
-    mclass = "polyline" + (":E=0" if not edges else "") + (":last_vertex_isolated" if last_iso and edges else "")
+    mclass = "polyline"
+    fine = "polyline" + (":E=0" if not edges else "") + (":last_vertex_isolated" if last_iso and edges else "")
     if last_iso and edges:
         rep.flag("polyline:last_vertex_isolated")
     if not edges:
@@ -887,7 +923,7 @@ def _polyline(M, spec, rep: Report):
         rep.flag("polyline:stored_edge_descending")
     if len(F.components(n, edges)) > 1:
         rep.flag("polyline:disconnected")
-    cx = Ctx(rep, mclass, {"pts": spec["pts"], "edges": spec["edges"], "name": spec["name"]}, (tuple(pts), tuple(edges)))
+    cx = Ctx(rep, mclass, {"pts": spec["pts"], "edges": spec["edges"], "name": spec["name"]}, (tuple(pts), tuple(edges)), fine=fine)
     _graph_ops(cx, M, m, n, P)
 
 
@@ -908,10 +944,6 @@ def run_task(task, rep: Report):
             fn(M, spec, rep)
     finally:
         np.seterr(**old)
-
-
-PINNED = {"quick": {"surfaces_enumerated": None, "polylines_enumerated": None},
-          "thorough": {}}
 
 
 def finish(tier, rep: Report):
